@@ -481,17 +481,19 @@ def decode_resultset(pkts: List[bytes], caps: int) -> Dict[str, Any]:
     dep = bool(int(caps) & int(C.CLIENT_DEPRECATE_EOF))
     if not pkts:
         raise Bad("empty response")
+    i0 = 0
+    if int(caps) & int(C.CLIENT_OPTIONAL_RESULTSET_METADATA):
+        # negotiated: the packet starts with one byte metadata_follows (0 = RESULTSET_METADATA_NONE: no definitions follow,
+        # 1 = FULL), then the length-encoded column count
+        if len(pkts[0]) < 2 or pkts[0][0] not in (0, 1):
+            raise Bad("CLIENT_OPTIONAL_RESULTSET_METADATA negotiated: column count packet %r lacks a valid metadata_follows byte" % pkts[0][:12])
+        if pkts[0][0] == 0:
+            raise Bad("metadata_follows = NONE is not requested by this client (resultset_metadata is FULL)")
+        i0 = 1
     try:
-        n, i = rd_lenenc(pkts[0], 0)
+        n, i = rd_lenenc(pkts[0], i0)
     except (ValueError, IndexError, struct.error):
         raise Bad("column count packet expected, got %r" % pkts[0][:40])
-    if int(caps) & int(C.CLIENT_OPTIONAL_RESULTSET_METADATA):
-        # negotiated: the column count is followed by one byte, 0 = RESULTSET_METADATA_NONE (no definitions follow), 1 = FULL
-        if i + 1 != len(pkts[0]) or pkts[0][i] not in (0, 1):
-            raise Bad("CLIENT_OPTIONAL_RESULTSET_METADATA negotiated: column count packet %r lacks a valid metadata_follows byte" % pkts[0][:12])
-        if pkts[0][i] == 0:
-            raise Bad("metadata_follows = NONE is not requested by this client (resultset_metadata is FULL)")
-        i += 1
     if i != len(pkts[0]) or n == 0:
         raise Bad("column count packet")
     if len(pkts) < 1 + n:
